@@ -159,6 +159,27 @@ func runC16Faults(c *sim.Ctx, t *testing.T) {
 	ids := []string{"a", "b", "c"}[:1+c.Intn(3, "nids")]
 	seq := 0
 	ops := cwGenOps(c, ids, 3+c.Intn(7, "nops"), true, &seq)
+	if c.Chance(1, 5, "bigcrew") {
+		// a big crew: a broadcast changes many machines in one batch write, and one of
+		// them produces a state that cannot be encoded
+		n := 17 + c.Intn(32, "crewsize")
+		ids = nil
+		ops = nil
+		for i := 0; i < n; i++ {
+			id := fmt.Sprintf("m%02d", i)
+			ids = append(ids, id)
+			ops = append(ops, cwOp{kind: "add", id: id})
+		}
+		for k := 2 + c.Intn(3, "nbroadcasts"); k > 0; k-- {
+			seq++
+			m := map[string]interface{}{"id": fmt.Sprintf("m%d", seq)}
+			if c.Chance(2, 3, "nan") {
+				m["nan"] = map[string]interface{}{ids[c.Intn(n, "nanid")]: true}
+			}
+			ops = append(ops, cwOp{kind: "process", msg: m})
+		}
+		c.Count("big_crews")
+	}
 	open := true
 	hist := ""
 	shape := ""
